@@ -14,7 +14,7 @@ TEMPLATES = ["cat|cat", "cat|cat", "cat|cat_date", "cat_date|cat", "mr|cat", "ca
              "cai|cac", "cac|cai", "cat", "cat", "cat_date", "cat|cat|cat", "mr|cat|cat",
              "cat|cai|cac", "logical|cat", "cat|binned", "cat", "cat_date"]
 MODES = ["random", "random", "median_trap", "no_values", "sparse", "offset", "one_value",
-         "near_half"]
+         "near_half", "unvalued_group"]
 RULE = (
     "W1 synthetic surveys over %d templates x {unweighted, integer weights incl. 0, "
     "fractional weights (mean/stddev/stderr only)} x numeric-value assignments {partial, "
@@ -88,6 +88,42 @@ def make_case(unit):
             if valued:
                 k0 = g.pick(valued)
                 var_.ans = np.array([k0 if a in valued else a for a in var_.ans])
+    if mode == "unvalued_group":
+        # one group of the other variable answers only categories without a numeric value, spread
+        # unevenly over several of them: its share of valued answers is exactly zero although its
+        # proportions do not add up to exactly 1.0 - the statistic of that vector is undefined
+        lf_ = cases.library_order_facets(facets)
+        if len(lf_) >= 2 and lf_[-1][0] == "cat" and lf_[-2][0] == "cat":
+            sv, gv = lf_[-1][1], lf_[-2][1]
+            valid = [k for k, c in enumerate(sv.cats) if not c.get("missing")]
+            if len(valid) >= 3:
+                blank = g.r.sample(valid, len(valid) - 1 if len(valid) < 5 else 3)
+                for k in blank:
+                    sv.cats[k]["numeric_value"] = None
+                gvalid = [k for k, c in enumerate(gv.cats) if not c.get("missing")]
+                k0 = g.pick(gvalid)
+                # counts whose shares do not add up to exactly 1.0 in binary floating point
+                # (1/6 + 4/6 + 1/6 = 1 - 1.1e-16), when the group can be given that many members
+                pat = g.pick([(1, 4, 1), (2, 3, 1), (3, 2, 2), (1, 6, 2), (4, 1, 1)])
+                seq = [blank[0]] * pat[0] + [blank[1]] * pat[1] + [blank[-1]] * pat[2]
+                members = [n for n in range(len(sv.ans)) if gv.ans[n] == k0]
+                others = [k for k in gvalid if k != k0]
+                if others and len(sv.ans) > len(seq):
+                    rest = [n for n in range(len(sv.ans)) if n not in members]
+                    g.r.shuffle(rest)
+                    while len(members) < len(seq) and rest:
+                        members.append(rest.pop())
+                    gans = np.array(gv.ans)
+                    for n in members[len(seq):]:
+                        gans[n] = others[0]
+                    members = members[:len(seq)]
+                    for n in members:
+                        gans[n] = k0
+                    gv.ans = gans
+                ans = np.array(sv.ans)
+                for q, n in enumerate(members):
+                    ans[n] = seq[q % len(seq)]
+                sv.ans = ans
     if mode in ("median_trap", "near_half"):
         _median_trap(g, facets)
     if mode == "sparse":
